@@ -34,10 +34,21 @@ def fold(members, entries):
     return s
 
 
+class DropTransport(so.RecTransport):
+    """like the TCP transport, dropping a node closes its connection and reports the disconnect"""
+
+    def dropNode(self, node):
+        so.RecTransport.dropNode(self, node)
+        self._onNodeDisconnected(node)
+
+
 def _mk(inp, members, **kw):
     now = inp.real('now', 0)
     so_mod.pickle = real_pickle
-    o, tr = so.make('a', list(members), so.Clock(now), inp, dynamicMembershipChange=True, **kw)
+    o, tr0 = so.make('a', list(members), so.Clock(now), inp, dynamicMembershipChange=True, **kw)
+    tr = DropTransport()
+    tr.setOnNodeDisconnectedCallback(getattr(o, so.P + 'onNodeDisconnected'))
+    put(o, 'transport', tr)
     return o, tr, now
 
 
@@ -47,7 +58,7 @@ def _effective_change(inp, tag, members, pool=POOL):
     return cands[inp.choice(tag, len(cands))]
 
 
-@obligation('M1', props=('C10', 'C04'), quick=[dict(n=3)], thorough=[dict(n=3), dict(n=4)], stubs=_STUBS,
+@obligation('M1', props=('C10', 'C04', 'C20', 'C14'), quick=[dict(n=3)], thorough=[dict(n=3), dict(n=4)], stubs=_STUBS,
             bounds='leader of a 3-node cluster, n<=4 log entries with the own-term no-op at any position, at most one earlier membership entry at any position (pending or applied), any applied/commit index; request: add member/non-member, remove member/non-member/self')
 def M1(inp, n):
     """leader-side gate: a membership command is appended only if the leader has applied its own-term no-op and no earlier
@@ -96,6 +107,8 @@ def M1(inp, n):
         get(o, 'raftMatchIndex')[Node(x)] = 0
         get(o, 'lastResponseTime')[Node(x)] = now
     put(o, 'newAppendEntriesTime', now + 1)
+    for x in cur:
+        get(o, 'connectedNodes').add(Node(x))
     reqs = [('add', x) for x in POOL] + [('rem', x) for x in POOL] + [('rem', 'a'), ('add', 'a')]
     rk, rid = reqs[inp.choice('request', len(reqs))]
     rec = Rec('cb')
@@ -120,6 +133,8 @@ def M1(inp, n):
         reg = [(k, nd.id) for k, nd in tr.registry]
         cl['transport_registry_follows'] = reg == [('add' if rk == 'add' else 'drop', rid)]
         cl['tables_follow'] = (Node(rid) in get(o, 'raftNextIndex')) == (rk == 'add') and (Node(rid) in get(o, 'raftMatchIndex')) == (rk == 'add')
+        if rk == 'rem':
+            cl['removed_member_no_longer_reported_connected'] = not o.isNodeConnected(Node(rid))
         if rk == 'add':
             cl['new_member_counted_for_nothing_yet'] = And(Eq(get(o, 'raftMatchIndex')[Node(rid)], 0), get(o, 'raftNextIndex')[Node(rid)] <= last + 2, get(o, 'raftNextIndex')[Node(rid)] >= 1)
     else:
